@@ -78,7 +78,13 @@ def run_impl(case):
             drv.enqueue(act[1])
             mirror.append(act[1])
         elif act[0] == "iter":
-            recs = drv.iterate(act[1], act[2], [tuple(x) for x in act[3]])
+            try:
+                recs = drv.iterate(act[1], act[2], [tuple(x) for x in act[3]])
+            except Exception as ex:      # noqa: the outgoing thread of the real component would end here, for good
+                trace.append(dict(act=act, pre=pre, post=drv.state(), recs=[], err=None,
+                                  died="%s: %s" % (type(ex).__name__, ex)))
+                enc += [-999]
+                break
         elif act[0] == "in":
             err = drv.deliver(act[1], act[2], act[3], caddr=act[4] if len(act) > 4 else 11 + act[1])
         post = drv.state()
@@ -297,6 +303,10 @@ def oracle_history(case, trace):
     out = []
     for k, step in enumerate(trace):
         act = step["act"]
+        if step.get("died"):
+            out.append(("outgoing-loop-died", "step %d: a scripted send failure let %s escape the outgoing iteration: the outgoing "
+                                              "thread ends, no peer is sent anything any more" % (k, step["died"])))
+            break
         if act[0] == "in":
             if step["err"] is None and (act[3] & 1):
                 pending[act[1]] = True
